@@ -718,7 +718,7 @@ def registry_snapshot():
 
 
 # events that themselves register a user primitive: expected growth of (primitive_vjps, primitive_jvps)
-REGISTERS = {"fail_check_grads_vjp_only": (1, 0), "fail_rule": (1, 0), "reentrant_rule": (1, 0), "reentrant_forward": (1, 0), "register": (1, 1), "deprecated": (1, 0)}
+REGISTERS = {"maker_fault_then_retry": (3, 0), "fail_check_grads_vjp_only": (1, 0), "fail_rule": (1, 0), "reentrant_rule": (1, 0), "reentrant_forward": (1, 0), "register": (1, 1), "deprecated": (1, 0)}
 
 
 def snap_diff(a, b):
@@ -979,13 +979,91 @@ def run_histories(res, chk, seed, idx, n, tier):
             got = grad_named(f_, "w")(*((x3, s0) if order else (s0, x3)))
             assert onp.allclose(got, (2.0 if order else 6.0) * x3 * s0, rtol=1e-13, atol=1e-13), "grad_named(loss, 'w') after a re-definition with reordered parameters: %r" % (got,)
 
+    def ev_maker_fault_then_retry(rng):
+        # a transient fault in the rule (maker) of a NON-first argument during the first backward pass of a closure,
+        # caught by the caller, who then uses the SAME closure again: the answer of a fresh closure
+        from autograd.extend import defvjp_argnum, defvjp_argnums
+
+        for api in ("defvjp", "defvjp_argnum", "defvjp_argnums"):
+            state = {"fail": True}
+
+            bad_i, where = int(rng.integers(1, 3)), str(rng.choice(["maker", "closure"]))
+
+            def rule(i, ans, x, y, z, bad_i=bad_i, where=where, state=state):
+                if i == bad_i and where == "maker" and state["fail"]:
+                    state["fail"] = False
+                    raise MemoryError("transient")
+                inner = (lambda g: g * y * z, lambda g: g * x * z * 2.0, lambda g: g * x * y)[i]
+
+                def vjp_i(g):
+                    if i == bad_i and where == "closure" and state["fail"]:
+                        state["fail"] = False
+                        raise MemoryError("transient")
+                    return inner(g)
+
+                return vjp_i
+
+            Pm = primitive(lambda x, y, z: x * y * z + y * y * x * z - y * y * x * z + y * x * z)  # = 2 x y z; rule 1 says 2 x z
+            if api == "defvjp":
+                defvjp(Pm, *[(lambda i: lambda ans, x, y, z: rule(i, ans, x, y, z))(i) for i in range(3)])
+            elif api == "defvjp_argnum":
+                defvjp_argnum(Pm, lambda argnum, ans, args, kwargs: rule(argnum, ans, *args))
+            else:
+                defvjp_argnums(Pm, lambda argnums, ans, args, kwargs: (lambda fs: lambda g: tuple(f(g) for f in fs))([rule(i, ans, *args) for i in argnums]))
+            f = lambda t: Pm(t[0], t[1], t[2]) * 1.0
+            t0 = (1.5, -0.5, 2.0)
+            vj = r = None
+            for attempt in range(3):
+                try:
+                    if vj is None:
+                        vj = make_vjp(f)(t0)[0]  # (the fault may already strike here, where rules are built)
+                    r = vj(1.0)  # ... or here; the caller retries with whatever it already holds
+                    break
+                except MemoryError:
+                    continue
+            want = (t0[1] * t0[2], t0[0] * t0[2] * 2.0, t0[0] * t0[1])
+            assert all(abs(float(a_) - b_) < 1e-12 for a_, b_ in zip(r, want)), "%s: after a transient fault in a rule the same VJP function returns %r, a fresh one %r" % (api, r, want)
+
+    def ev_integer_use_then_missing_rule(rng):
+        # a primitive that lacks a rule for one position (the bounds of np.clip), first used with an INTEGER-typed
+        # traced value there, then differentiated w.r.t. a float there: still the loud failure of a fresh process
+        xs_ = onp.array([0.2, 0.9, 1.7])
+        try:
+            grad(lambda t: anp.sum(anp.clip(t * 1.0, (t * 2.0).astype(int) - 1, 1.5)))(xs_)
+        except (NotImplementedError, KeyError):
+            pass  # loud already (no rule for that position, whatever the dtype)
+        for k in range(2):
+            try:
+                r = grad(lambda lo: anp.sum(anp.clip(xs_, lo, 1.5)))(0.5)
+            except (NotImplementedError, KeyError):
+                continue
+            raise AssertionError("differentiating np.clip w.r.t. its lower bound returned %r instead of raising (a fresh interpreter raises)" % (r,))
+
+    def ev_memo_keyed_by_traced_scalars(rng):
+        # user code that memoises on its (traced) scalar arguments in a dict that outlives the differentiation:
+        # a later differentiation at equal values must not be handed values of the finished one
+        memo = {}
+
+        def slow(u):
+            if u not in memo:
+                memo[u] = anp.sin(u) * u
+            return memo[u]
+
+        f = lambda t: slow(t) * 2.0 + slow(t * 1.0)
+        for k in range(3):
+            v = (0.7, 1.3, 0.7)[k]
+            got = grad(f)(v)
+            want = 3.0 * (onp.cos(v) * v + onp.sin(v))
+            assert abs(float(got) - want) < 1e-12, "call %d of a memoised function: gradient %r, expected %r" % (k, got, want)
+            f(v)  # a plain evaluation in between stores plain numbers under the same values
+
     def ev_ok_work(rng):
         hessian(lambda x: anp.sum(anp.sin(x) * x))(x3)
         make_vjp(lambda x: anp.cumsum(x))(x3)[0](onp.ones(3))
 
     events = {"fail_user": ev_fail_user, "fail_nested": ev_fail_nested, "fail_rule": ev_fail_rule, "fail_norule": ev_fail_norule, "fail_type": ev_fail_type, "fail_nonscalar": ev_fail_nonscalar,
               "fail_warning": ev_fail_warning, "fail_warning_nested": ev_fail_warning_nested, "fail_setitem": ev_fail_setitem, "caught_inside": ev_fail_caught_inside, "reentrant_rule": ev_reentrant_rule,
-              "reentrant_forward": ev_reentrant_forward, "recursion": ev_recursion, "register": ev_register, "deprecated": ev_deprecated, "ok_work": ev_ok_work, "rfft_options": ev_rfft_options, "fail_bad_cotangent": ev_fail_bad_cotangent, "warnings_as_errors": ev_warnings_as_errors, "fail_check_grads_vjp_only": ev_fail_check_grads_vjp_only, "operator_object_reuse": ev_operator_object_reuse, "flatten_empty": ev_flatten_empty, "named_same_qualname": ev_named_same_qualname}
+              "reentrant_forward": ev_reentrant_forward, "recursion": ev_recursion, "register": ev_register, "deprecated": ev_deprecated, "ok_work": ev_ok_work, "rfft_options": ev_rfft_options, "fail_bad_cotangent": ev_fail_bad_cotangent, "warnings_as_errors": ev_warnings_as_errors, "fail_check_grads_vjp_only": ev_fail_check_grads_vjp_only, "operator_object_reuse": ev_operator_object_reuse, "flatten_empty": ev_flatten_empty, "named_same_qualname": ev_named_same_qualname, "maker_fault_then_retry": ev_maker_fault_then_retry, "integer_use_then_missing_rule": ev_integer_use_then_missing_rule, "memo_keyed_by_traced_scalars": ev_memo_keyed_by_traced_scalars}
     names = sorted(events)
     for h in range(idx, total, n):
         rng = onp.random.Generator(onp.random.PCG64([seed, h, 79]))
